@@ -229,6 +229,10 @@ func badValue(kind string) any {
 		return "5"
 	case "empty":
 		return ""
+	case "badtype":
+		return "xotp"
+	case "badsecret":
+		return "not base32 !!"
 	case "range11":
 		return 11
 	case "range100":
@@ -419,7 +423,14 @@ func drawC20Call(t *rapid.T) c20Call {
 		default:
 			c.BadPos = rapid.IntRange(0, nargs-1).Draw(t, "badPos")
 			if isStringPos(c.Fn, c.BadPos) {
-				c.BadVal = rapid.SampledFrom([]string{"undefined", "null", "NaN", "-1", "1e300", "Infinity", "true", "object", "array", "number", "empty"}).Draw(t, "badStr")
+				vals := []string{"undefined", "null", "NaN", "-1", "1e300", "Infinity", "true", "object", "array", "number", "empty"}
+				if c.Fn == "generateOTPURL" && c.BadPos == 0 {
+					vals = append(vals, "badtype", "badtype", "badtype")
+				}
+				if (c.Fn != "generateOTPURL" && c.BadPos == 0) {
+					vals = append(vals, "badsecret", "badsecret", "badsecret") // an undecodable secret is an error, not a code
+				}
+				c.BadVal = rapid.SampledFrom(vals).Draw(t, "badStr")
 			} else {
 				vals := []string{"undefined", "null", "NaN", "-1", "-0.5", "1e300", "2^63", "Infinity", "-Infinity", "true", "object", "array", "string"}
 				// out-of-range values of the windowed / periodic parameters
